@@ -6,7 +6,9 @@ package schedsim
 
 import (
 	"context"
+	"runtime"
 	"sort"
+	"strings"
 	"sync"
 	"testing/synctest"
 	"time"
@@ -23,6 +25,9 @@ type simClock struct {
 	now    time.Time
 	nextID int
 	timers map[int]*simTimer
+
+	gateArmed bool
+	gateHeld  chan struct{}
 }
 
 type simTimer struct {
@@ -37,10 +42,63 @@ func newSimClock() *simClock {
 	return &simClock{now: time.Unix(1_000_000, 0).UTC(), timers: map[int]*simTimer{}}
 }
 
+// Now is what the scheduler calls right before it takes its lock. When
+// the re-entry gate is armed, the first call that comes from a worker
+// waking up inside getNextTask() is held there - after its wake-up, before
+// it has the lock again - until the harness lets it go: whatever the
+// harness does meanwhile lands between the two lock sections of that
+// Synchronize call.
 func (c *simClock) Now() time.Time {
 	c.mu.Lock()
+	if c.gateArmed && calledFrom("(*worker).getNextTask") {
+		c.gateArmed = false
+		ch := make(chan struct{})
+		c.gateHeld = ch
+		c.mu.Unlock()
+		<-ch
+		c.mu.Lock()
+	}
 	defer c.mu.Unlock()
 	return c.now
+}
+
+func calledFrom(function string) bool {
+	var pcs [6]uintptr
+	n := runtime.Callers(2, pcs[:])
+	frames := runtime.CallersFrames(pcs[:n])
+	for {
+		f, more := frames.Next()
+		if strings.HasSuffix(f.Function, function) {
+			return true
+		}
+		if !more {
+			return false
+		}
+	}
+}
+
+func (c *simClock) armGate() {
+	c.mu.Lock()
+	c.gateArmed, c.gateHeld = true, nil
+	c.mu.Unlock()
+}
+
+// disarmGate reports whether a call is being held.
+func (c *simClock) disarmGate() bool {
+	c.mu.Lock()
+	defer c.mu.Unlock()
+	c.gateArmed = false
+	return c.gateHeld != nil
+}
+
+func (c *simClock) releaseGate() {
+	c.mu.Lock()
+	ch := c.gateHeld
+	c.gateHeld = nil
+	c.mu.Unlock()
+	if ch != nil {
+		close(ch)
+	}
 }
 
 func (c *simClock) NewTimer(d time.Duration) (clock.Timer, <-chan time.Time) {
